@@ -69,6 +69,19 @@ type FuncV struct {
 
 type TupleV []Val
 
+// ConstArr: a package-level array initialised by a constant literal and never
+// written anywhere in the module.
+type ConstArr struct {
+	Elems []T
+	Term  T
+	Name  string
+}
+
+type ConstElemPtr struct {
+	Arr ConstArr
+	Idx T
+}
+
 type OpaqueV struct{ Desc string }
 
 type MapV struct{ Entries map[string]Val } // constant-keyed maps only
